@@ -1,6 +1,7 @@
 import TrionModel.Lemmas.FrontTargets
 import TrionModel.Lemmas.FrontReject
 import TrionModel.Lemmas.ShowAsm
+import TrionModel.Lemmas.FrontWf
 /-!
 # C04 — an instruction statement assembles to the encoding of what was written
 
@@ -13,9 +14,9 @@ What is proved here, for every address, every spelling and every evaluator:
 * register names (`reg_names`) and letter case (`*_upper`): a name denotes register `r` iff its upper-case
   form is one of `R0…R15`, `SP`, `LR`, `PC` with the documented aliasing;
 * PC-relative operands (`b_target`, `bl_target`, `adr_target`, `ldr_target`): the statement is accepted iff the
-  target is a `u32`, `target − (addr + 4 mod 2^32)` (word-aligned first for ADR / literal LDR) is in range and
+  target is a `u32`, `target − (addr + 4)` (word-aligned first for ADR / literal LDR; not wrapped) is in range and
   aligned — and then exactly that offset is stored;
-* rejections (`arity_rejected`, `kind_rejected`, the `↔` of the target theorems): wrong operand count and
+* rejections (`arity_rejected`, `kind_rejected`, `build_wf`, the `↔` of the target theorems): wrong operand count and
   wrong operand kind give a diagnostic, never an instruction;
 * `[R + k]` and `[k + R]` are the same operand (`addr_order`);
 * `assemble` never panics (`assemble_no_panic`);
@@ -49,7 +50,7 @@ theorem names_any_case (s : Bytes) :
     regl (upper s) = regl s ∧ sysl (upper s) = sysl s ∧ mnemonic (upper s) = mnemonic s ∧ isRegister (upper s) = isRegister s :=
   ⟨regl_upper s, sysl_upper s, mnemonic_upper s, isRegister_upper s⟩
 
-/-- C04.c  `B<c> target` at `a`: accepted iff the target is a `u32` and `target − ((a + 4) mod 2^32)` is within
+/-- C04.c  `B<c> target` at `a`: accepted iff the target is a `u32` and `target − (a + 4)` (`pcOf a`, not wrapped) is within
 the range of the condition and even; the offset stored is exactly that difference. -/
 theorem b_target (a : Nat) (name : Bytes) (c : Cond) (x : Arg) (tgt : Int) (eval : Arg → EvalOut) (loc : Bool) (off : Int)
     (hm : mnemonic name = some (.b c 0)) (he : eval x = .complete (.const tgt)) :
@@ -64,7 +65,7 @@ theorem bl_target (a : Nat) (name : Bytes) (x : Arg) (tgt : Int) (eval : Arg →
       (0 ≤ tgt ∧ tgt ≤ 4294967295) ∧ off = tgt - (pcOf a : Nat) ∧ -16777216 ≤ off ∧ off ≤ 16777215 ∧ off % 2 = 0 :=
   bl_target_proof a name x tgt eval loc off hm he
 
-/-- C04.d  `ADR Rd, target`: the offset stored is `target − ((a & ~3) + 4 mod 2^32)`, accepted iff it is in
+/-- C04.d  `ADR Rd, target`: the offset stored is `target − ((a & ~3) + 4)` (`alPc a`, not wrapped), accepted iff it is in
 `0 … 1020` and a multiple of 4. -/
 theorem adr_target (a : Nat) (name s : Bytes) (d d' : Reg) (x : Arg) (tgt : Int) (eval : Arg → EvalOut) (loc : Bool) (off : Int)
     (hm : mnemonic name = some (.adr 0 0)) (hs : regl s = some d) (he : eval x = .complete (.const tgt)) :
@@ -80,12 +81,26 @@ theorem ldr_target (a : Nat) (name s : Bytes) (d d' ad : Reg) (x : Arg) (tgt : I
         ∃ off, o = .imm off ∧ off = tgt - (alPc a : Nat) ∧ 0 ≤ off ∧ off ≤ 1020 ∧ off % 4 = 0 :=
   ldr_target_proof a name s d d' ad x tgt eval loc o hm hs he
 
-/-- non-vacuity: `B` at 0xFFFFFFFE to 2 (PC wraps to 2) and `BEQ` at 0x20000000 to 0x1FFFFF04 -/
+/-- non-vacuity: the four templates exist, and `BEQ` at 0x20000000 to 0x1FFFFF04 stores −256 -/
 example : mnemonic (bytesOf "beq") = some (.b 0 0) ∧ mnemonic (bytesOf "Adr") = some (.adr 0 0) ∧
     mnemonic (bytesOf "LDR") = some (.ldr 0 0 (.imm 0)) ∧ mnemonic (bytesOf "bl") = some (.bl 0) := by decide
 example : build 0x20000000 (bytesOf "BEQ") [.const 0x1FFFFF04] (fun a => .complete a) true = .completed (.b 0 (-256)) := by
   have hm : mnemonic (bytesOf "BEQ") = some (.b 0 0) := by decide
   exact (b_target 0x20000000 _ 0 _ 0x1FFFFF04 _ true (-256) hm rfl).mpr (by simp [pcOf, bLo, bHi])
+
+/-- at the top of the address space a backward branch is accepted (offset −16 from 0xFFFFFFFC + 4 = 2^32) and
+`ADR R0, 8` is refused (8 is not "after" 2^32) -/
+example : build 0xFFFFFFFC (bytesOf "B") [.const 0xFFFFFFF0] (fun a => .complete a) true = .completed (.b 14 (-16)) := by
+  have hm : mnemonic (bytesOf "B") = some (.b 14 0) := by decide
+  exact (b_target 0xFFFFFFFC _ 14 _ 0xFFFFFFF0 _ true (-16) hm rfl).mpr (by simp [pcOf, bLo, bHi]; decide)
+example (d : Reg) (off : Int) :
+    build 0xFFFFFFFC (bytesOf "ADR") [.ident (bytesOf "R0"), .const 8] (fun a => .complete a) true ≠ .completed (.adr d off) := by
+  have hm : mnemonic (bytesOf "ADR") = some (.adr 0 0) := by decide
+  have hs : regl (bytesOf "R0") = some 0 := by decide
+  intro h
+  have := (adr_target 0xFFFFFFFC _ _ 0 d _ 8 _ true off hm hs rfl).mp h
+  simp [alPc] at this
+  omega
 
 /-- C04.e  A wrong operand count is a diagnostic (`TooManyArguments` / `NotEnoughArguments`), whatever the
 operands are; the instruction is left at its template. -/
@@ -104,6 +119,14 @@ theorem kind_rejected {k : Kind} {eval : Arg → EvalOut} {loc : Bool} {pos done
 
 example : get .register (fun a => .complete a) true 0 0 (.const 5) = .stop (.const 5) 0 (.error (.argType 0 [.ident] .const)) := by
   simp [get, Arg.ty]
+
+/-- C04.e''  Whatever the operands and the evaluator: an instruction that `build` completes has every field
+inside the range of its Rust type (`i32` immediates and offsets, `u16` ADR offset / UDF.W payload, `u8`
+BKPT/SVC/UDF payload) — an operand outside its type's range has produced a diagnostic, never a wrapped or
+truncated field. (Encodability of the in-type value is then the encoder's decision, C01.) -/
+theorem build_wf (a : Nat) (name : Bytes) (args : List Arg) (eval : Arg → EvalOut) (loc : Bool) (i : Instr)
+    (h : build a name args eval loc = .completed i) : i.wf :=
+  build_wf_proof a name args eval loc i h
 
 /-- C04.f  `assemble` never reaches the `self.args[arg_pos]` index panic (the only panic site of the function). -/
 theorem assemble_no_panic (st : St) (eval : Arg → EvalOut) (loc : Bool) : (assemble st eval loc).2 ≠ .panic :=
